@@ -163,8 +163,42 @@ def flat_attribute(draw, desc: list) -> tuple[int, int, bytes]:
     return 0xC0, 22, bytes([draw(st.sampled_from([0, 1, 255])), ttype]) + draw(st.binary(min_size=3, max_size=3)) + ident
 
 
+def _samples(asn4: bool) -> dict:
+    """one or more valid values for every attribute code exabgp registers: the corpus bank where the encoding does not depend on
+    the session, built here where it does (AS_PATH, AGGREGATOR) or where the vectors hold none"""
+    out = {c: [v for _f, v in corpus.ATTR_BANK[c]][:8] for c in corpus.ATTR_BANK if c not in (2, 7, 14, 15, 153)}
+    out[2] = [build.aspath([(2, [65001, 23456 if not asn4 else 70000])], asn4), build.aspath([(2, [65001]), (1, [64512, 64513])], asn4)]
+    out[7] = [(struct.pack('!L', 70000) if asn4 else struct.pack('!H', 23456)) + build.ip('10.0.0.9')]
+    out[17] = [build.aspath([(2, [65001, 70000])], True)]
+    out[18] = [struct.pack('!L', 70000) + build.ip('10.0.0.9')]
+    out[22] = [bytes([0, 6]) + b'\x00\x03\xe8' + build.ip('10.0.0.1'), bytes([0, 0]) + b'\x00\x00\x00']
+    out[26] = [b'\x01\x00\x0b' + struct.pack('!Q', 10)]
+    out.setdefault(6, [b''])
+    out.setdefault(9, [build.ip('10.0.0.7')])
+    out.setdefault(10, [build.ip('10.0.0.8')])
+    return out
+
+
+ATTR_FLAGS = {1: 0x40, 2: 0x40, 3: 0x40, 4: 0x80, 5: 0x40, 6: 0x40, 7: 0xC0, 8: 0xC0, 9: 0x80, 10: 0x80, 16: 0xC0, 17: 0xC0, 18: 0xC0, 22: 0xC0, 23: 0xC0, 25: 0xC0, 26: 0x80, 29: 0x80, 32: 0xC0, 40: 0xC0}
+
+
+@st.composite
+def attribute_mix(draw) -> dict:
+    """a subset of every attribute code we register, each with a valid value, on one IPv4 route: which pairs collide in the event"""
+    asn4 = draw(st.booleans())
+    samples = _samples(asn4)
+    extra_codes = draw(st.lists(st.sampled_from(sorted(c for c in samples if c not in (1, 2, 3))), min_size=2, max_size=9, unique=True))
+    attrs = b''
+    for code in [1, 2, 3] + sorted(extra_codes):
+        attrs += build.attribute(ATTR_FLAGS.get(code, 0xC0), code, draw(st.sampled_from(samples[code])))
+    body = build.update_body(b'', attrs, hostile.BASE_NLRI)
+    return {'type': 2, 'body': body.hex(), 'asn4': asn4, 'addpath': False, 'extnh': False, 'seed': 'tree:attribute-mix', 'ops': [f'attr{c}' for c in sorted(extra_codes)]}
+
+
 @st.composite
 def tree_messages(draw) -> dict:
+    if draw(st.integers(0, 7)) == 0:
+        return draw(attribute_mix())
     desc: list = []
     extra = b''
     what = draw(st.sampled_from(['prefix-sid', 'prefix-sid', 'tunnel', 'tunnel', 'bgpls', 'bgpls', 'flat', 'ls-nlri', 'route-nlri']))
